@@ -305,8 +305,9 @@ class Built:
             self.error_msg = str(e)[:300]
 
     def executed_at_parse(self):
-        """parse_model *executes* each generated statement as its syntax check, so a constant sub-expression that
-        raises or warns (1/(2-2), log(-7)) makes it fail although the script is inside the grammar."""
+        """Did the rejection look like the statement having been EXECUTED by parse_model's syntax check (the defect
+        repaired by a900a8c: a constant sub-expression that raises or warns, 1/(2-2), log(-7))?  Only used to give a
+        regression of that repair its own violation key."""
         return self.error in ('ZeroDivisionError', 'OverflowError') or (
             self.error == 'ParserError' and ('Unexpected warning' in self.error_msg
                                              or 'Unexpected number of warnings' in self.error_msg))
